@@ -1350,8 +1350,13 @@ asn1c_lang_C_type_SIMPLE_TYPE(arg_t *arg) {
 		OUT("\n");
 		DEBUG("expr constraint checking code for %s", p);
 		if(asn1c_emit_constraint_checking_code(arg) == 1) {
-			OUT("return td->encoding_constraints.general_constraints"
-				"(td, sptr, ctfailcb, app_key);\n");
+			/*
+			 * No checkable constraint: defer to the base type's checker.
+			 * (td->encoding_constraints.general_constraints is this very
+			 * function and would recurse forever.)
+			 */
+			OUT("return %s_constraint(td, sptr, ctfailcb, app_key);\n",
+				asn1c_type_name(arg, expr, TNF_SAFE));
 		}
 		INDENT(-1);
 		OUT("}\n");
